@@ -5,6 +5,7 @@ import QV.Drive.C11
 import QV.Drive.C04
 import QV.Drive.C14
 import QV.Drive.C05
+import QV.Drive.C18
 /-! `qvdriver`: one JSON request per input line, one JSON reply per output line. -/
 open Lean
 
@@ -16,7 +17,8 @@ def dispatch (j : Json) : Except String Json := do
     QV.Drive.C11.handle,
     QV.Drive.C04.handle,
     QV.Drive.C14.handle,
-    QV.Drive.C05.handle
+    QV.Drive.C05.handle,
+    QV.Drive.C18.handle
   ]
   for h in handlers do
     if let some r := h op j then return ← r
